@@ -17,6 +17,7 @@ SCENARIOS = [
     (r'EventBus\.step/.*task_done|EventBus\.step/inv.*queue_accounting', 'rp_idle_after_fault.py'),
     (r'EventBus\.process_event/raises:only_declared', 'rp_recursion_guard_hang.py'),
     (r'EventBus\._execute_handlers/raises:cancellederror_only_if_task_cancelled', 'rp_handler_raises_cancelled.py'),
+    (r'EventBus\._execute_handlers/(ensures:no_handler_task_left_running|loop#\d+:.*(awaited_so_far_are_done|every_task_is_remembered|one_task_per_handler))', 'rp_parallel_sibling_running.py'),
     (r'EventBus\.process_event/callsite:event_result_update\\(pending\\)', 'rp_forward_completion_regress.py'),
     (r'EventResult\.update/ensures:typed_', 'rp_result_type_union.py'),
     (r'event_results_filtered/(safety:AssertionError|raises:only_declared)', 'rp_accessor_none_result.py'),
